@@ -796,7 +796,7 @@ def run(scn, ch, log=False):
                 family_syntax.setdefault(fam, syn)
                 probe("extra_" + syn)
             elif c.persistent and c.expiry == 0.0:
-                family_syntax.setdefault(fam, "expires_at_epoch_zero")
+                # (was a divergence class of its own, C16-F5, until aiohttp was repaired)
                 probe("expires_at_epoch_zero")
 
         def do_set(op, opi):
